@@ -3,6 +3,7 @@ package main
 import (
 	"bufio"
 	"bytes"
+	"runtime"
 	"fmt"
 	"io"
 	"net"
@@ -230,7 +231,7 @@ func (t *oracleTab) scanPlain(data []byte, syn int) {
 		}
 		t.addContent(content)
 		// the http repair changes Content-Length by 2
-		if cl >= 0 && cl+2 <= int64(len(data[len(data)-rest:])) {
+		if cl >= 0 && cl < int64(len(data)) && cl+2 <= int64(len(data[len(data)-rest:])) {
 			t.addContent(data[len(data)-rest:][:cl+2])
 		}
 	}
@@ -322,11 +323,18 @@ func kUnmarshal(args []string) (string, string) {
 	o := parseRopts(args[0])
 	fault := args[1] == "t"
 	data := unhx(args[2])
+	var m0, m1 runtime.MemStats
+	runtime.ReadMemStats(&m0)
 	res := runUnmarshal(o, data, fault, 0)
+	runtime.ReadMemStats(&m1)
 	if res.rec != nil {
 		defer res.rec.Close()
 	}
 	oracle := "ok"
+	// C05: memory proportional to the data (allocation volume of this call, generous constant)
+	if grown := m1.TotalAlloc - m0.TotalAlloc; grown > uint64(64*len(data))+(8<<20) {
+		oracle = fmt.Sprintf("VIOL blowup allocated=%d input=%d", grown, len(data))
+	}
 	// C05: chunking independence and progress
 	for style := 1; style <= 3; style++ {
 		r2 := runUnmarshal(o, data, fault, style)
@@ -342,6 +350,19 @@ func kUnmarshal(args []string) (string, string) {
 	}
 	if len(args) > 4 && oracle == "ok" {
 		oracle = judgeTruth(o, args[4], res)
+	}
+	if len(args) > 4 && oracle == "ok" && res.errTag == "" && res.rec != nil {
+		// C07: the complete declared block can be read from the returned record (clean records with a truthful length)
+		t := kvParse(args[4])
+		if t["clean"] == "t" && t["len"] == "ok" {
+			if want, ok := declaredBlockOf(data); ok {
+				_, got := readAllBlock(res.rec)
+				noRepair := !o.fixsyn && !o.fixwf
+				if noRepair && got != hx(want) {
+					oracle = fmt.Sprintf("VIOL c07-block-incomplete read=%d declared=%d", len(unhxOrEmpty(got)), len(want))
+				}
+			}
+		}
 	}
 	return res.line, oracle
 }
@@ -447,3 +468,47 @@ func init() {
 }
 
 func pairsOf(rec gowarc.WarcRecord) [][2]string { return gowarc.VerifPairs(rec.WarcHeader()) }
+
+
+func unhxOrEmpty(s string) []byte {
+	if strings.HasPrefix(s, "err:") || s == "-" {
+		return nil
+	}
+	return unhx(s)
+}
+
+// declaredBlockOf: the bytes framed by Content-Length in a serialized record, found with an independent scan
+// (first record of the stream, plain or one gzip member).
+func declaredBlockOf(data []byte) ([]byte, bool) {
+	if len(data) > 2 && data[0] == 0x1f && data[1] == 0x8b {
+		st, content, _ := gunzipAt(data)
+		if st != "ok" {
+			return nil, false
+		}
+		data = content
+	}
+	start := bytes.Index(data, []byte("WARC/"))
+	if start < 0 {
+		return nil, false
+	}
+	end := bytes.Index(data[start:], []byte("\r\n\r\n"))
+	if end < 0 {
+		return nil, false
+	}
+	hdr := data[start : start+end]
+	cl := -1
+	for _, line := range bytes.Split(hdr, []byte("\r\n")) {
+		if i := bytes.Index(line, []byte(": ")); i > 0 && strings.EqualFold(string(line[:i]), "Content-Length") {
+			n, err := strconv.Atoi(string(line[i+2:]))
+			if err != nil {
+				return nil, false
+			}
+			cl = n
+		}
+	}
+	body := data[start+end+4:]
+	if cl < 0 || cl > len(body) {
+		return nil, false
+	}
+	return body[:cl], true
+}
